@@ -897,11 +897,42 @@ def scenarios_tree():
     ]
 
 
+def scenarios_delete():
+    """DELETE /allocations/{c} (carries no generation, so it is outside the
+    serial-equivalence and guarded-write oracles of C05-C07) racing writers
+    of the same consumer: for the STATE invariants only."""
+    out = []
+    out.append(('delete vs rewrite of the same consumer', {
+        'A': delete_alloc(K1),
+        'B': put_alloc(K1, {E: {'VCPU': 2}, S: {'DISK_GB': 5}}, 'cur')}))
+    out.append(('delete vs move of the same consumer', {
+        'A': delete_alloc(K2),
+        'B': put_alloc(K2, {E: {'VCPU': 1}}, 'cur', 'proj-x', 'user-x',
+                       'MIGRATION')}))
+    out.append(('delete vs multi-consumer post', {
+        'A': delete_alloc(K1),
+        'B': post_allocs({K1: ({E: {'VCPU': 1}}, 'cur', 'pA'),
+                          K3: ({E: {'VCPU': 1}}, 'null', 'pA')})}))
+    out.append(('delete vs delete', {
+        'A': delete_alloc(K1), 'B': delete_alloc(K1)}))
+    out.append(('delete vs clearing put', {
+        'A': delete_alloc(K2),
+        'B': put_alloc(K2, {}, 'cur', 'proj-other', 'user-other',
+                       'MIGRATION')}))
+    out.append(('delete vs reshape moving the consumer', {
+        'A': delete_alloc(K1), 'B': reshape_move(R, 'VCPU', C)}))
+    out.append(('delete vs rewrite vs claim', {
+        'A': delete_alloc(K1),
+        'B': put_alloc(K1, {E: {'VCPU': 2}}, 'cur'),
+        'C': put_alloc(K3, {E: {'VCPU': 2}}, 'null')}))
+    return out
+
+
 def invariant_scenarios(include_tree=False, sample_c05=40, seed=0):
     import random
     rng = random.Random('inv/%s' % seed)
     c05 = scenarios_c05()
-    out = scenarios_c07() + scenarios_c06() + rng.sample(
+    out = scenarios_delete() + scenarios_c07() + scenarios_c06() + rng.sample(
         c05, min(sample_c05, len(c05)))
     if include_tree:
         out = scenarios_tree() + out
